@@ -186,7 +186,7 @@ def r_dict(ctx, a):
     import copy
     jax, jnp, pu = J()
     d, sep, prefix = a['d'], a['sep'], a['prefix']
-    d0 = copy.deepcopy(d)
+    d0 = d; d = copy.deepcopy(d0)            # the implementation only ever sees the copy `d`
     bad = keys_have_sep(d, sep)
     ctx.count('dict:' + ('malformed' if bad else 'wellformed'))
     ctx.count('dict:depth=%d' % _depth(d))
@@ -256,11 +256,12 @@ def _depth(d):
 
 def r_unflatten(ctx, a):
     jax, jnp, pu = J()
-    flat, empt, sep = a['flat'], tuple(a['empty']), a['sep']
+    flat, empt, sep = dict(a['flat']), tuple(a['empty']), a['sep']
     try:
         r = pu.unflatten_dict(flat, empt, sep=sep); impl = [1] + enc_tree(r)
     except TypeError:
         r = None; impl = [0]
+    ctx.oracle(PURE, list(flat.items()) == list(a['flat'].items()) and empt == tuple(a['empty']), {'fn': 'unflatten_dict'})
     m = ctx.model.call(1, [ord(sep)] + enc_flat(flat) + enc_keys(empt))
     ctx.exact('unflatten_dict on arbitrary flat dict', impl, ints_of(m))
     ctx.count('unflatten:' + ('ok' if r is not None else 'TypeError'))
@@ -283,8 +284,9 @@ def r_unflatten(ctx, a):
 
 def r_replace(ctx, a):
     jax, jnp, pu = J()
-    x, rep, default, check = a['x'], a['rep'], a['default'], a['check']
-    x0, rep0 = json.dumps(x), json.dumps(rep)
+    import copy
+    x, rep, default, check = copy.deepcopy(a['x']), copy.deepcopy(a['rep']), a['default'], a['check']
+    x0, rep0 = json.dumps(a['x']), json.dumps(a['rep'])
     try:
         r = pu.replace_with_matching_or_default(x, rep, default=default, check_used_all_replace_keys=check)
         impl = [1] + enc_tree(r)
@@ -439,8 +441,9 @@ def gen_arrays(ctx):
         axis = int(rng.integers(-ndim, ndim))
         nax = int(rng.integers(0 if i % 5 == 0 else 1, 5))
         shapes = []
-        mixed = (i % 3 == 2)                       # leaves of different rank, non-negative axis
-        if mixed: axis = int(rng.integers(0, ndim))
+        mixed = (i % 3 != 0)                       # leaves of different rank, non-negative axis
+        if mixed:
+            axis = int(rng.integers(0, ndim)); nl = max(nl, 2)
         for j in range(nl):
             nd = ndim + (int(rng.integers(0, 3)) if mixed else 0)
             sh = [int(rng.integers(1, 4)) for _ in range(nd)]
